@@ -722,13 +722,16 @@ class DAG(BaseDAG[P, RVDAG]):
                     exec_function=lambda x: x,
                     resource=consts.Resource.main_thread,
                     args=[axn],
+                    # pass kwargs to pass in the twz_active!
+                    active=make_active(uxn.id, **kwargs),
                     # during subdag construction,
                     # there are only two frames to get to the actual call site
                     call_location_frame=2,
                 )
-                # register this LazyExecNode in the dict
-                # pass kwargs to pass in the twz_active!
-                _val: UsageExecNode = stub(axn, **kwargs)
+                # register this LazyExecNode in the dict under exactly this id: calling the stub would append a usage
+                # count whenever an input whose id looks like a reuse of this one (inputs "f<<2>>" then "f" of a
+                # composed DAG) is already registered, and the SubDAG's nodes would no longer find their input
+                node.exec_nodes[stub.id] = stub
                 registered_input_ids.append(uxn.id)
 
             # updating ids of results already registered in the DAG due to pipeline.setup and default args
